@@ -39,8 +39,8 @@ STUBS = ['FakeTLS socket returned by a stub SSLContext.wrap_socket (the '
          'FakeSocket', 'recording handlers', 'slimta.logging -> no-ops']
 ASSUMPTIONS = ['PLAIN and LOGIN are the plain-text mechanisms']
 CELL_BUDGET_S = {'quick': 240, 'thorough': 2400}
-SAMPLE_P = 0.003
-MAX_WITNESSES = 3
+SAMPLE_P = 0.02
+MAX_WITNESSES = 6
 
 CREDS = [('user', 'pass'), ('usér中', 'päss wörd'), ('u', '')]
 
